@@ -76,8 +76,12 @@ func walkList(l slip.List, o *obsVar, depth int) {
 			case nil:
 				o.bad = "tail-nil"
 			case slip.List:
-				o.tailList = true
+				// (list* 8 9 '(1 2)) must be (8 9 1 2); slip itself sees a Tail holding a list as a dotted
+				// pair (length 3, printed "(8 9 . (1 2))"): outside the model, reported and not extended
 				walkList(tv, o, depth+1)
+				if o.bad == "" {
+					o.bad = "tail-list"
+				}
 			default:
 				o.bad = fmt.Sprintf("dotted:%T", tv)
 			}
